@@ -1248,6 +1248,16 @@ def _check_holder(ctx, drv, kr, base, ops, hist, cfg0, key, opk):
     return ok
 
 
+def distinct_value(rng, draw, seen):
+    """a new parameter value with relative distance > 1e-3 from every value used before in the history (see probe_histories)"""
+    for _ in range(100):
+        v = draw()
+        if all(abs(v - sv) > 1e-3 * abs(sv) for sv in seen):
+            break
+    seen.append(v)
+    return v
+
+
 def probe_histories(ctx, rng, n_cases):
     """SRF and CondSRF objects: model replacement (differing only in geo_scale / length / time ratio), in-place changes (+ the documented
     set_condition() refresh for the kriging part), calls on new / stored positions with new seeds; every result is compared with a
@@ -1270,6 +1280,10 @@ def probe_histories(ctx, rng, n_cases):
         cur = dict(cfg0)
         hist = []
         key = cfg_key(cfg0)
+        # values already used in this history: a later value within rtol 1e-5 of an EARLIER one (not the present one) would run into the
+        # recorded C11 finding "isclose-stale" (the generator keeps its private model copy when CovModel.__eq__ (np.isclose) sees no change),
+        # which is not a statement about coordinates; new values keep a relative distance > 1e-3 from every earlier value
+        seen_vals = [cfg0["ls"][0]] + list(cfg0["anis"][2:])
         called = False
         tgt = None
         for step in range(int(rng.integers(3, 7))):
@@ -1278,17 +1292,22 @@ def probe_histories(ctx, rng, n_cases):
                 if u < 0.3:
                     c1 = other_unit_cfg(rng, cur)
                     c1["nugget"] = 0.0
+                    if c1["anis"][2:] and c1["anis"] != cur["anis"]:
+                        c1["anis"] = [1.0, 1.0, distinct_value(rng, lambda: float(10 ** rng.uniform(-0.5, 0.5)), seen_vals)]
+                    if any(0 < abs(c1["ls"][0] - sv) <= 1e-3 * abs(sv) for sv in seen_vals):
+                        c1["ls"] = [cur["ls"][0]]
+                    seen_vals.append(c1["ls"][0])
                     obj.model = make_model(c1)
                     cur = c1
                     hist.append(["model = (geo_scale %r, len_scale %r, anis %r)" % (c1["geo"], c1["ls"][0], c1["anis"])])
                     opk = "replace-model"
                 elif u < 0.55:
                     if temporal and rng.random() < 0.6:
-                        v = [1.0, 1.0, float(10 ** rng.uniform(-0.5, 0.5))]
+                        v = [1.0, 1.0, distinct_value(rng, lambda: float(10 ** rng.uniform(-0.5, 0.5)), seen_vals)]
                         obj.model.anis = v
                         hist.append(["model.anis = %r" % (v,)])
                     else:
-                        v = float(obj.model.len_scale * rng.uniform(0.5, 2.0))
+                        v = distinct_value(rng, lambda: float(obj.model.len_scale * rng.uniform(0.5, 2.0)), seen_vals)
                         obj.model.len_scale = v
                         hist.append(["model.len_scale = %r" % (v,)])
                     if which == "CondSRF":
